@@ -12,7 +12,7 @@ SHIPPED = "/repo/schemas"
 REPO_MANIFEST = "/repo/Cargo.toml"
 TARGET_REPO = os.path.join(CACHE, "target_repo")
 KINDS = {"table": ("model", "DTable"), "plan": ("migration", "DPlan"), "config": ("config", "DConfig")}
-RULE = ("the K-serde documents (see C12: tool-written TableDef / MigrationPlan / VespertideConfig documents in struct order and in the "
+RULE = ("12 real-binary projects (init / new [--format] / revision under all modelFormat x override combinations); the K-serde documents (see C12: tool-written TableDef / MigrationPlan / VespertideConfig documents in struct order and in the "
         "to_value+$schema file form, mutated documents, quirk probes) + schema-guided mutants of tool-written documents that stay valid under "
         "the shipped schema (optional members dropped / nulled, boundary integers, other anyOf branches, extra members), parsed by the real "
         "serde through `hserde parse`; non-trivial & distinct = distinct document text exercising >=1 optional/union member or >=2 actions, "
@@ -21,6 +21,7 @@ ASSUME = [
     "shipped schemas = /repo/schemas/*.json; generated schemas = output of /repo's vespertide-schema-gen built from the current working tree (cargo --frozen, target dir .cache/target_repo), both translated by tools/schema2coq.py (syntactic, trusted; unknown keywords make it fail)",
     "the validation relation `valid` (coq/serde/Model/SchemaOf.v) is tied to python-jsonschema 4.26 Draft2020-12 on every document of every run (K-schema, compared inside Coq)",
     "proved for all values: valid (schema_of_X) (encode v) = Some true for MigrationPlan / TableDef / VespertideConfig (valid_encode_*), fuel irrelevance of the validator, the `bounded` refutations; per run by vm_compute: shipped-vs-generated equality (or the exact recorded difference) and generated = schema_of. NOT proved: decode_of_valid (bounded, schema-valid => parsed) for all documents; it is evaluated on every generated / mutated / schema-guided document (a test)",
+    "real-binary stream: `vespertide init`, `new [--format]` under every modelFormat and `revision` under every migrationFormat; YAML files are read back with the tool's own serde_yaml (hserde parse yaml2json) before schema validation; the empty `new` template is completed with an id primary-key column before the load test",
     "documents that repeat a member are outside the quantifier of 'schema-valid documents' (a validator sees the parsed map, the parser sees the text)",
     "the parser side is the K-serde model of C12 (see its assumptions: YAML text layer not modelled, integer literals in [2^63,2^64) at DefaultValue positions excluded)",
 ]
@@ -321,6 +322,7 @@ def run(tier, seed):
                                                  "input": {"kind": "mut_" + m["kind"], "text": m["text"], "labels": [m["label"]]},
                                                  "replay_cmd": "./vf replay %s <this file>" % PROP})
         chk.violation(rp)
+    binary_stream(chk, tier, seed)
     if (mism or errors or serde_mism or mut_model_mism) and not failures and not mfail:
         payload = {"tier": tier, "seed": seed, "shard_errors": errors[:2],
                    "broken": [n for n, c in chk.cov["correspondences"].items() if c["mismatches"]]}
@@ -338,6 +340,37 @@ def run(tier, seed):
         rp = vflib.write_replay(PROP, "correspondence:K-schema", payload)
         chk.violation(rp, True)
     return chk.finish()
+
+
+def binary_stream(chk, tier, seed):
+    """O-C15 on the real binary: every file `init` / `new [--format]` / `revision` writes parses in the format of
+    its extension, validates against the shipped schema its $schema names, and loads."""
+    import clirun
+    rc, out = clirun.build_binary()
+    if rc != 0 or not os.path.exists(clirun.BIN):
+        rp = vflib.write_replay(PROP, "correspondence:build-binary", {"log": out[-2000:]})
+        chk.violation(rp, True)
+        return
+    work = os.path.join(CACHE, "c15bin")
+    outp = os.path.join(CACHE, "c15bin_result.json")
+    p = subprocess.run([PY_VT, os.path.join(ROOT, "tools", "c15_binstream.py"), "--bin", clirun.BIN, "--hserde", os.path.join(vflib.TARGET, "debug", "hserde"),
+                        "--schemas", SHIPPED, "--work", work, "--out", outp], capture_output=True, text=True)
+    if p.returncode != 0 or not os.path.exists(outp):
+        rp = vflib.write_replay(PROP, "correspondence:binary-stream", {"log": (p.stdout + p.stderr)[-2000:]})
+        chk.violation(rp, True)
+        return
+    r = json.load(open(outp))
+    chk.cov["binary_stream"] = {"projects": r["projects"], "files_checked": r["files_checked"], "problems": len(r["problems"]),
+                                "combinations": "modelFormat x (no override | --format json|yaml|yml) x migrationFormat (cycled)"}
+    chk.cov["evaluations"] += r["files_checked"]
+    chk.cov["traces_validated_against_impl"] += r["files_checked"]
+    if r["cases"]:
+        chk.cov["samples"] = chk.cov.get("samples", []) + [{"kind": "binary-stream", **{k: r["cases"][5][k] for k in ("modelFormat", "new_format_override", "migrationFormat", "files")}}]
+    for pr in r["problems"][:5]:
+        rp = vflib.write_replay(PROP, "oracle:binary", {"tier": tier, "seed": seed, "why": pr["why"],
+                                                        "input": {"kind": "binary", **{k: v for k, v in pr.items() if k != "why"}},
+                                                        "replay_cmd": "./vf replay %s <this file>" % PROP})
+        chk.violation(rp)
 
 
 def setup():
@@ -369,6 +402,20 @@ def replay(path):
             return 1
         return 0
     inp = rp.get("input") or rp.get("first_differing_case")
+    if inp and inp.get("kind") == "binary":
+        chk = vflib.Check(PROP, "quick", 1)
+        serderun.build()
+        binary_stream(chk, "quick", 1)
+        same = [v for v in chk.violations]
+        r = json.load(open(os.path.join(CACHE, "c15bin_result.json")))
+        hit = [p for p in r["problems"] if (p.get("modelFormat"), p.get("new_format_override")) == (inp.get("modelFormat"), inp.get("new_format_override"))]
+        for p in hit:
+            print(p["why"])
+        if hit:
+            print("VIOLATION property=%s replay=%s" % (PROP, path))
+            return 1
+        print("the recorded combination passes now (%d other problems)" % len(r["problems"]))
+        return 0
     if not inp or not inp.get("text"):
         print(json.dumps(rp, indent=1)[:3000])
         return 1
